@@ -5,7 +5,7 @@ from vlib.common import hexs
 from vlib.decsuite import D, parse_tok, cls_kind, planes_of
 
 THEOREMS = ["C04_decode_refines", "C04_cleanup_refines", "C04_history_refines"]
-BRIDGES = []
+BRIDGES = ["BridgePState"]
 W = H = 16
 Q = 5
 
